@@ -162,6 +162,29 @@ where
     out
 }
 
+/// Stack-depth probe: lex `unit` repeated up to ~`total` bytes on a thread with a 64 KiB stack,
+/// counting items. A lexer whose stack use grows with the input overflows this stack (the process
+/// dies); a constant-stack lexer prints the count.
+pub fn stack_probe_str<T>(unit: &str, total: usize) -> String
+where
+    T: for<'s> Logos<'s, Source = str, Extras = ()> + Debug,
+{
+    let n = (total / unit.len().max(1)).max(1);
+    let big: String = unit.repeat(n);
+    let h = std::thread::Builder::new()
+        .stack_size(64 * 1024)
+        .spawn(move || {
+            let mut lex = Lexer::<T>::new(&big);
+            let mut count = 0usize;
+            while let Some(_) = lex.next() {
+                count += 1;
+            }
+            format!("count={} end={} len={}", count, lex.span().end, big.len())
+        })
+        .unwrap();
+    h.join().unwrap_or_else(|_| "THREADPANIC".into())
+}
+
 /// Lex `input` presented as a prefix of a longer allocation whose tail repeats the input, so that
 /// a read past the end of the slice changes the result instead of going unnoticed.
 pub fn with_tail<R>(input: &[u8], f: impl FnOnce(&[u8]) -> R) -> R {
